@@ -589,7 +589,8 @@ def exec (sc : Scripts) : Nat → Task → World → R
         if ¬ (w.c.objs a).ec then { w := w, val := none }
         else
           -- sentences hold a reference to their object: the structure is never released while listed
-          match (w.c.objs a).sent.find? (fun t => !(w.c.objs t.2).destructed && t.1 == verb) with
+          -- (a sentence only ever holds an allocated object: add_action stores current_object)
+          match (w.c.objs a).sent.find? (fun t => decide (t.2 < w.c.n) && !(w.c.objs t.2).destructed && t.1 == verb) with
           | none => { w := w, val := none }
           | some t =>
             (exec sc f (.hook t.2 .act (some a)) { w with cg := some a }).andThen fun w _ =>
@@ -710,6 +711,8 @@ inductive Cmd where
 
 def stepCmd (sc : Scripts) (w : World) : Cmd → World
   | .top op =>
+    -- the harness applies master->top(op); (the reload of a destructed master is not modelled: such a history is cut)
+    if ¬ (1 < w.c.n ∧ (w.c.objs 1).destructed = false) then emit w "r top !nomaster" else
     let r := exec sc topFuel (.ops 1 none [op]) w
     match r.out with
     | .ok => r.w
